@@ -388,7 +388,7 @@ Proof.
       destruct Hf1 as [Hf1|Hf1].
       * subst f1. exists f, nr. unfold frag_ids. rewrite Ef. cbn [nlen length app N.of_nat]. rewrite N.sub_0_r.
         cbn [set_ids f_ids f_id f_phys f_created f_updated f_del]. repeat split; auto; try lia.
-        all: idtac "GOAL3". all: match goal with |- ?g => idtac g end.
+        left; reflexivity.
       * destruct (IH _ _ _ H1 _ Hf1) as (g & a0 & Hg & A1 & A2 & A3). exists g, a0. repeat split; try apply A3; auto; try lia. right; exact Hg.
 Qed.
 
@@ -471,4 +471,309 @@ Proof.
   - intros [r [c u]] Hx. unfold prows in Hx. rewrite Eids, Ecs, Eus in Hx.
     apply in_combine_both in Hx as [H1 H2]. apply in_combine_both in H2 as [H2 H3].
     apply in_uniform in H2. apply in_uniform in H3. apply in_nseq in H1. subst. cbn [fst snd]. split; [lia | reflexivity].
+Qed.
+
+Lemma nlen_map {A B} (g : A -> B) l : nlen (map g l) = nlen l.
+Proof. unfold nlen. rewrite map_length. reflexivity. Qed.
+
+(* new fragments of Update (rewritten and inserted rows) *)
+Lemma updated_frags (news : list (N * list N)) ex fid0 nr V nr1 nf1 nf2 :
+  assign_row_ids nr (fst (fragments_with_ids
+      (map (fun x : N * list N => fresh_frag (fst x) (match snd x with [] => None | l => Some l end)) news) fid0)) = Ok (nr1, nf1) ->
+  stamp_updated ex nf1 V = Ok nf2 ->
+  forall f, In f nf2 -> wf_frag f /\ f_del f = [] /\
+    (forall x, In x (prows f) ->
+       (In (fst x) (flat_map snd news) \/ nr <= fst x < nr1) /\ snd x = (created_lookup ex (fst x), V)).
+Proof.
+  intros Ha Hs f Hf. destruct (stamp_updated_in _ _ _ _ Hs _ Hf) as (f1 & vm & Hf1 & Hv & Ef).
+  destruct (assign_row_ids_in _ _ _ _ Ha _ Hf1) as (f0 & a & Hf0 & A1 & A2 & A3 & A4 & A5 & A6 & A7 & A8 & A9).
+  destruct (fragments_with_ids_in _ _ _ Hf0) as (g & i & Hg & Eg). apply in_map_iff in Hg as (x0 & Es & Hx0). subst g f0.
+  assert (Ecar : frag_ids (set_id (fresh_frag (fst x0) (match snd x0 with [] => None | l => Some l end)) i) = snd x0).
+  { unfold frag_ids. cbn [set_id fresh_frag f_ids]. destruct (snd x0); reflexivity. }
+  rewrite Ecar in *. cbn [set_id fresh_frag f_phys f_created f_updated f_del] in *.
+  rewrite A3 in Ef. apply build_version_meta_ok in Hv. rewrite A6 in Hv.
+  destruct (uniform_col (fst x0) V vm Hv) as [U1 U2].
+  set (ids1 := snd x0 ++ nseq a (fst x0 - nlen (snd x0))) in *.
+  assert (Eids : frag_ids f = ids1) by (subst f; unfold frag_ids; cbn [set_created set_updated f_ids]; rewrite A3; reflexivity).
+  assert (Ecs : cs_of f = map (created_lookup ex) ids1) by (subst f; reflexivity).
+  assert (Eus : us_of f = uniform (fst x0) V) by (subst f; unfold us_of; cbn [set_created set_updated f_updated f_phys]; rewrite A6; exact U1).
+  assert (Eph : f_phys f = fst x0) by (subst f; cbn; exact A6).
+  assert (Hlen : nlen ids1 = fst x0) by (unfold ids1; rewrite nlen_app, nlen_nseq; lia).
+  split; [|split].
+  - unfold wf_frag. rewrite Eids, Ecs, Eus, Eph, nlen_map, nlen_uniform, Hlen. repeat split; auto.
+    + subst f. cbn [set_created set_updated f_ids]. eexists; exact A3.
+    + subst f. cbn [set_created set_updated f_created]. discriminate.
+    + subst f. cbn [set_created set_updated f_updated]. exact U2.
+  - subst f. cbn. exact A9.
+  - intros [r [c u]] Hx. unfold prows in Hx. rewrite Eids, Ecs, Eus in Hx.
+    apply in_combine_map in Hx as (H1 & H2 & H3). apply in_uniform in H3. subst c u. cbn [fst snd].
+    split; [|reflexivity]. unfold ids1 in H1. apply in_app_iff in H1 as [H1|H1].
+    + left. apply in_flat_map. exists x0. split; assumption.
+    + right. apply in_nseq in H1. lia.
+Qed.
+
+(* ================================================================ fragments that stay (Delete / Update) *)
+Lemma find_frag_some fs i f : find_frag fs i = Some f -> In f fs /\ f_id f = i.
+Proof. unfold find_frag. intro H. apply find_some in H as [H1 H2]. apply N.eqb_eq in H2. auto. Qed.
+
+Lemma find_frag_unique : forall fs f, NoDup (map f_id fs) -> In f fs -> find_frag fs (f_id f) = Some f.
+Proof.
+  unfold find_frag. induction fs as [|g tl IH]; intros f Hn Hf; [contradiction|].
+  cbn [map] in Hn. inversion Hn as [|? ? Hnot Hn']; subst. cbn [find]. destruct (f_id g =? f_id f) eqn:E.
+  - destruct Hf as [Hf|Hf]; [subst; reflexivity|]. exfalso. apply N.eqb_eq in E. apply Hnot. rewrite E. apply in_map; exact Hf.
+  - destruct Hf as [Hf|Hf]; [subst; rewrite N.eqb_refl in E; discriminate | apply IH; assumption].
+Qed.
+
+Section Lowered.
+  Variable k : frag -> N * list N -> frag.
+  Hypothesis Hk : forall f0 x, f_id (k f0 x) = f_id f0.
+  Variable ex : list frag.
+  Hypothesis Hex : NoDup (map f_id ex).
+
+  Definition lowered (upd : list (N * list N)) : list frag :=
+    flat_map (fun x => match find_frag ex (fst x) with Some f0 => [k f0 x] | None => [] end) upd.
+
+  Lemma lowered_ids upd u : In u (lowered upd) -> exists x, In x upd /\ f_id u = fst x.
+  Proof.
+    intro H. apply in_flat_map in H as (x & Hx & H). destruct (find_frag ex (fst x)) as [f0|] eqn:E; [|contradiction].
+    destruct H as [H|[]]. subst u. apply find_frag_some in E as [_ E]. exists x. split; [exact Hx | rewrite Hk; exact E].
+  Qed.
+
+  Lemma replace_first_lowered : forall upd f, In f ex ->
+    replace_first (lowered upd) f = match entry_for upd f with Some x => k f x | None => f end.
+  Proof.
+    intros upd f Hf. unfold replace_first, entry_for.
+    assert (H : find (fun u => f_id u =? f_id f) (lowered upd) = option_map (k f) (find (fun x => fst x =? f_id f) upd)).
+    { induction upd as [|x tl IH]; [reflexivity|]. cbn [lowered flat_map find]. fold (lowered tl).
+      destruct (fst x =? f_id f) eqn:E.
+      - apply N.eqb_eq in E. rewrite E, (find_frag_unique _ _ Hex Hf). cbn [app find]. rewrite Hk, N.eqb_refl. reflexivity.
+      - destruct (find_frag ex (fst x)) as [f0|] eqn:E0; [|exact IH].
+        apply find_frag_some in E0 as [_ E0]. cbn [app find]. rewrite Hk, E0, E. exact IH. }
+    rewrite H. destruct (find _ upd); reflexivity.
+  Qed.
+
+  Lemma replace_all_id l f : f_id (replace_all l f) = f_id f.
+  Proof.
+    unfold replace_all. revert f. induction l as [|u tl IH]; intro f; cbn [fold_left]; [reflexivity|].
+    rewrite IH. destruct (f_id u =? f_id f) eqn:E; [apply N.eqb_eq in E; exact E | reflexivity].
+  Qed.
+  Lemma replace_all_none l f : (forall u, In u l -> f_id u <> f_id f) -> replace_all l f = f.
+  Proof.
+    unfold replace_all. revert f. induction l as [|u tl IH]; intros f H; cbn [fold_left]; [reflexivity|].
+    destruct (f_id u =? f_id f) eqn:E; [apply N.eqb_eq in E; exfalso; exact (H u (or_introl eq_refl) E)|].
+    apply IH. intros v Hv. apply H. right; exact Hv.
+  Qed.
+  Lemma replace_all_app l1 l2 f : replace_all (l1 ++ l2) f = replace_all l2 (replace_all l1 f).
+  Proof. unfold replace_all. apply fold_left_app. Qed.
+
+  Lemma replace_all_lowered : forall upd f, NoDup (map fst upd) -> In f ex ->
+    replace_all (lowered upd) f = match entry_for upd f with Some x => k f x | None => f end.
+  Proof.
+    unfold entry_for. induction upd as [|x tl IH]; intros f Hn Hf; [reflexivity|].
+    cbn [map] in Hn. inversion Hn as [|? ? Hnot Hn']; subst.
+    cbn [lowered flat_map find]. fold (lowered tl). rewrite replace_all_app. destruct (fst x =? f_id f) eqn:E.
+    - apply N.eqb_eq in E. rewrite E, (find_frag_unique _ _ Hex Hf).
+      assert (E1 : replace_all [k f x] f = k f x) by (unfold replace_all; cbn [fold_left]; rewrite Hk, N.eqb_refl; reflexivity).
+      rewrite E1. apply replace_all_none. intros u Hu C. apply lowered_ids in Hu as (y & Hy & Ey).
+      apply Hnot. rewrite E, <- (Hk f x), <- C, Ey. apply in_map; exact Hy.
+    - assert (E1 : replace_all (match find_frag ex (fst x) with Some f0 => [k f0 x] | None => [] end) f = f).
+      { apply replace_all_none. intros u Hu. destruct (find_frag ex (fst x)) as [f0|] eqn:E0; [|contradiction].
+        destruct Hu as [Hu|[]]. subst u. apply find_frag_some in E0 as [_ E0]. rewrite Hk, E0. apply N.eqb_neq; exact E. }
+      rewrite E1. apply IH; assumption.
+  Qed.
+End Lowered.
+
+Lemma with_dv_lowered ex upd : flat_map (with_dv ex) upd = lowered (fun f0 x => set_del f0 (snd x)) ex upd.
+Proof. reflexivity. Qed.
+
+Definition refreshed (V prev : N) (f0 : frag) (x : N * list N) : frag :=
+  if nlen (snd x) =? f_phys f0 then refresh_full f0 V else refresh_partial f0 (snd x) V prev.
+
+Lemma rewrite_cols_lowered ex V prev rew :
+  flat_map (rewrite_cols true ex V prev) rew = lowered (refreshed V prev) ex rew.
+Proof.
+  unfold lowered. apply flat_map_ext. intro x. unfold rewrite_cols, refreshed.
+  destruct (find_frag ex (fst x)); [|reflexivity]. destruct (nlen (snd x) =? f_phys f); reflexivity.
+Qed.
+
+Lemma refreshed_id V prev f0 x : f_id (refreshed V prev f0 x) = f_id f0.
+Proof.
+  unfold refreshed, refresh_full, refresh_partial. destruct (nlen (snd x) =? f_phys f0); destruct (0 <? f_phys f0); reflexivity.
+Qed.
+
+(* ================================================================ in-place column rewrites *)
+Lemma map_nthN_id {A} (d : A) : forall (us : list A) s,
+  map (fun pos => nthN us (pos - s) d) (nseq s (nlen us)) = us.
+Proof.
+  induction us as [|y us IH]; intro s; [reflexivity|].
+  rewrite nlen_cons, nseq_succ. cbn [map nthN]. rewrite N.sub_diag, N.eqb_refl. f_equal.
+  rewrite <- (IH (s + 1)) at 2. apply map_ext_in. intros pos Hp. apply in_nseq in Hp.
+  destruct (pos - s =? 0) eqn:E; [apply N.eqb_eq in E; lia|]. f_equal. lia.
+Qed.
+Lemma map_nthN_id0 {A} (d : A) (us : list A) : map (fun pos => nthN us pos d) (nseq 0 (nlen us)) = us.
+Proof. rewrite <- (map_nthN_id d us 0) at 2. apply map_ext. intro pos. rewrite N.sub_0_r. reflexivity. Qed.
+
+Definition retouch (us T : list N) (V : N) : list N :=
+  map (fun pv : N * N => if memN (fst pv) T then V else snd pv) (combine (nseq 0 (nlen us)) us).
+
+Lemma nlen_combine_nseq {A} (l : list A) s : nlen (combine (nseq s (nlen l)) l) = nlen l.
+Proof. unfold nlen. rewrite combine_length. fold (nlen (nseq s (N.of_nat (length l)))). 
+  pose proof (nlen_nseq s (N.of_nat (length l))) as H. unfold nlen in H. lia. Qed.
+Lemma nlen_retouch us T V : nlen (retouch us T V) = nlen us.
+Proof. unfold retouch. rewrite nlen_map. apply nlen_combine_nseq. Qed.
+
+Lemma map_const_uniform {A} (l : list A) (v : N) : map (fun _ => v) l = uniform (nlen l) v.
+Proof. unfold uniform, nlen. rewrite Nat2N.id. induction l; cbn; [reflexivity | f_equal; assumption]. Qed.
+
+Lemma retouch_all us V : retouch us (nseq 0 (nlen us)) V = uniform (nlen us) V.
+Proof.
+  unfold retouch. rewrite <- (nlen_combine_nseq us 0) at 2. rewrite <- map_const_uniform.
+  apply map_ext_in. intros [o u] H. apply in_combine_l in H. cbn [fst].
+  assert (E : memN o (nseq 0 (nlen us)) = true) by (apply memN_true; exact H). rewrite E. reflexivity.
+Qed.
+
+Lemma combine_map_pos {B C} (g : N * B -> C) : forall (l : list B) s o y,
+  In (o, y) (combine (nseq s (nlen l)) (map g (combine (nseq s (nlen l)) l))) ->
+  exists u, In (o, u) (combine (nseq s (nlen l)) l) /\ y = g (o, u).
+Proof.
+  induction l as [|x l IH]; intros s o y H; [contradiction|].
+  rewrite nlen_cons, nseq_succ in *. cbn [combine map In] in *. destruct H as [H|H].
+  - inversion H; subst. exists x. split; [left; reflexivity | reflexivity].
+  - destruct (IH _ _ _ H) as (u & Hu & Ey). exists u. split; [right; exact Hu | exact Ey].
+Qed.
+
+Lemma us_of_refreshed V prev f x : wf_frag f ->
+  us_of (refreshed V prev f x) = retouch (us_of f) (touched_offs f (snd x)) V.
+Proof.
+  intros (_ & _ & _ & Hu & _ & Hn). unfold refreshed, touched_offs. destruct (nlen (snd x) =? f_phys f) eqn:E.
+  - replace (nseq 0 (f_phys f)) with (nseq 0 (nlen (us_of f))) by (rewrite Hu; reflexivity).
+    rewrite retouch_all, Hu. unfold refresh_full. destruct (0 <? f_phys f) eqn:Ep.
+    + reflexivity.
+    + apply N.ltb_ge in Ep. assert (f_phys f = 0) by lia. rewrite H in *. apply nlen_zero in Hu. rewrite Hu. reflexivity.
+  - unfold refresh_partial. destruct (0 <? f_phys f) eqn:Ep.
+    + unfold us_of at 1. cbn [set_updated f_updated]. unfold retouch. rewrite Hu.
+      destruct (f_updated f) as [us|] eqn:Eu.
+      * unfold us_of in Hu |- *. rewrite Eu in *. rewrite <- Hu. rewrite map_nthN_id0. reflexivity.
+      * specialize (Hn eq_refl). apply N.ltb_lt in Ep. lia.
+    + apply N.ltb_ge in Ep. assert (f_phys f = 0) by lia. rewrite H in *. apply nlen_zero in Hu. rewrite Hu. reflexivity.
+Qed.
+
+Lemma refreshed_same V prev f x :
+  f_ids (refreshed V prev f x) = f_ids f /\ f_created (refreshed V prev f x) = f_created f /\
+  f_phys (refreshed V prev f x) = f_phys f /\ f_del (refreshed V prev f x) = f_del f.
+Proof.
+  unfold refreshed, refresh_full, refresh_partial. destruct (nlen (snd x) =? f_phys f); destruct (0 <? f_phys f); repeat split; reflexivity.
+Qed.
+
+Lemma refreshed_updated_some V prev f x : f_updated (refreshed V prev f x) = None -> f_updated f = None.
+Proof.
+  unfold refreshed, refresh_full, refresh_partial. destruct (nlen (snd x) =? f_phys f); destruct (0 <? f_phys f); cbn; auto; discriminate.
+Qed.
+
+(* rows of a refreshed fragment, position by position *)
+Lemma refreshed_rows V prev f x : wf_frag f ->
+  let f' := refreshed V prev f x in
+  wf_frag f' /\
+  forall o r c u', In (o, (r, (c, u'))) (combine (nseq 0 (f_phys f)) (prows f')) ->
+    exists u, In (o, (r, (c, u))) (combine (nseq 0 (f_phys f)) (prows f)) /\
+              u' = if memN o (touched_offs f (snd x)) then V else u.
+Proof.
+  intros W f'. pose proof W as ((ids & Ei) & H1 & H2 & H3 & H4 & H5).
+  destruct (refreshed_same V prev f x) as (S1 & S2 & S3 & S4). fold f' in S1, S2, S3, S4.
+  pose proof (us_of_refreshed V prev f x W) as Eu. fold f' in Eu.
+  assert (Eid : frag_ids f' = frag_ids f) by (unfold frag_ids; rewrite S1; reflexivity).
+  assert (Ecs : cs_of f' = cs_of f) by (unfold cs_of; rewrite S2, S3; reflexivity).
+  split.
+  - unfold wf_frag. rewrite Eid, Ecs, Eu, nlen_retouch, S1, S2, S3. repeat split; auto.
+    + exists ids; exact Ei.
+    + intro Hn. apply H5. eapply refreshed_updated_some; exact Hn.
+  - intros o r c u' H. unfold prows in *. rewrite Eid, Ecs, Eu in H.
+    rewrite <- H1 in H at 1.
+    apply combine3_pos in H as (P1 & P2 & P3); [|lia | rewrite nlen_retouch; lia].
+    unfold retouch in P3. rewrite nlen_map, nlen_combine_nseq in P3.
+    apply combine_map_pos in P3 as (u & Pu & Eu'). cbn [fst snd] in Eu'.
+    exists u. split; [|exact Eu']. rewrite <- H1 at 1. apply combine3_of_pos; try lia; assumption.
+Qed.
+
+(* ================================================================ compaction *)
+Lemma live_from_length {A B} : forall (a : list A) (b : list B) off del,
+  length a = length b -> length (live_from off del a) = length (live_from off del b).
+Proof.
+  induction a as [|x a IH]; intros [|y b] off del H; cbn in H; try discriminate; [reflexivity|].
+  cbn [live_from]. destruct (memN off del); cbn [length]; [|f_equal]; apply IH; lia.
+Qed.
+
+Lemma nlen_eq_length {A B} (a : list A) (b : list B) : nlen a = nlen b -> length a = length b.
+Proof. unfold nlen. lia. Qed.
+
+Lemma created_default_wf f : wf_frag f -> created_or_default f = cs_of f.
+Proof.
+  intros ((ids & Ei) & H1 & _). unfold created_or_default, cs_of, row_count. destruct (f_created f); [reflexivity|].
+  unfold frag_ids in H1. rewrite Ei in *. rewrite H1. reflexivity.
+Qed.
+Lemma updated_default_wf f : wf_frag f -> updated_or_default f = us_of f.
+Proof.
+  intros W. pose proof W as (_ & _ & H2 & H3 & _ & H5). unfold updated_or_default, us_of.
+  destruct (f_updated f); [reflexivity|]. rewrite (created_default_wf _ W). specialize (H5 eq_refl).
+  rewrite H5 in *. apply nlen_zero in H2. rewrite H2. reflexivity.
+Qed.
+
+Lemma vrows_columns f : vrows f = combine (live (f_del f) (frag_ids f)) (combine (live (f_del f) (cs_of f)) (live (f_del f) (us_of f))).
+Proof.
+  unfold vrows, prows, live. rewrite (live_from_combine (frag_ids f) (combine (cs_of f) (us_of f))).
+  rewrite (live_from_combine (cs_of f) (us_of f)). reflexivity.
+Qed.
+
+Lemma flat_map_vrows : forall olds, (forall f, In f olds -> wf_frag f) ->
+  combine (flat_map (fun f => live (f_del f) (frag_ids f)) olds)
+          (combine (flat_map (fun f => live (f_del f) (cs_of f)) olds) (flat_map (fun f => live (f_del f) (us_of f)) olds))
+  = flat_map vrows olds.
+Proof.
+  induction olds as [|f tl IH]; intro W; cbn [flat_map]; [reflexivity|].
+  destruct (W f (or_introl eq_refl)) as (_ & H1 & H2 & H3 & _).
+  rewrite combine_app, combine_app, IH, vrows_columns by
+    (try (intros g Hg; apply W; right; exact Hg); unfold live; apply live_from_length; apply nlen_eq_length; lia).
+  reflexivity.
+Qed.
+
+Lemma combine_aligned {P A B C S} (g : P -> S) : forall (ps : list P) (la : list A) (lb : list B) (lc : list C) p a b c,
+  In (p, ((a, b), c)) (combine ps (combine (combine la lb) lc)) ->
+  In (a, g p) (combine la (map g ps)) /\ In (b, g p) (combine lb (map g ps)) /\ In (c, g p) (combine lc (map g ps)).
+Proof.
+  induction ps as [|p0 ps IH]; intros la lb lc p a b c H; [contradiction|].
+  destruct la as [|a0 la]; [contradiction|]. destruct lb as [|b0 lb]; [contradiction|]. destruct lc as [|c0 lc]; [contradiction|].
+  cbn [combine map In] in *. destruct H as [H|H].
+  - inversion H; subst. repeat split; left; reflexivity.
+  - destruct (IH _ _ _ _ _ _ _ H) as (X & Y & Z). repeat split; right; assumption.
+Qed.
+
+Lemma compact_rows olds news nf :
+  (forall f, In f olds -> wf_frag f) -> compact_carry olds news = Ok nf ->
+  forall f', In f' nf -> wf_frag f' /\ f_del f' = [] /\ forall x, In x (prows f') -> exists f, In f olds /\ In x (vrows f).
+Proof.
+  intros W. unfold compact_carry. destruct (forallb _ olds); [|discriminate].
+  set (IDS := flat_map (fun f => live (f_del f) (match f_ids f with Some x => x | None => [] end)) olds).
+  set (CS := flat_map (fun f => live (f_del f) (created_or_default f)) olds).
+  set (US := flat_map (fun f => live (f_del f) (updated_or_default f)) olds).
+  destruct (negb (nlen IDS =? sumN (map snd news)) || negb (nlen CS =? sumN (map snd news)) || negb (nlen US =? sumN (map snd news))) eqn:El; [discriminate|].
+  apply orb_false_iff in El as [El E3]. apply orb_false_iff in El as [E1 E2].
+  apply negb_false_iff in E1, E2, E3. apply N.eqb_eq in E1, E2, E3.
+  intro H; inversion H; subst nf; clear H. intros f' Hf'.
+  apply in_map_iff in Hf' as ([[fid size] [[a b] c]] & Ef & Hin). cbn [fst snd] in Ef. subst f'.
+  pose proof (combine_aligned snd _ _ _ _ _ _ _ _ Hin) as (La & Lb & Lc). cbn [snd] in La, Lb, Lc.
+  pose proof (split_sizes_len _ _ E1 _ _ La) as Na. pose proof (split_sizes_len _ _ E2 _ _ Lb) as Nb.
+  pose proof (split_sizes_len _ _ E3 _ _ Lc) as Nc.
+  split; [|split].
+  - unfold wf_frag, frag_ids, cs_of, us_of. cbn [f_ids f_created f_updated f_phys]. repeat split; auto; try discriminate. eexists; reflexivity.
+  - reflexivity.
+  - intros x Hx. unfold prows, frag_ids, cs_of, us_of in Hx. cbn [f_ids f_created f_updated f_phys] in Hx.
+    apply in_combine_r in Hin. pose proof (split_sizes_rows _ _ _ _ _ _ _ Hin x Hx) as Hall.
+    assert (Eall : combine IDS (combine CS US) = flat_map vrows olds).
+    { rewrite <- (flat_map_vrows olds W). unfold IDS, CS, US. f_equal; [|f_equal].
+      - apply flat_map_ext. reflexivity.
+      - clear - W. induction olds as [|f tl IH]; [reflexivity|]. cbn [flat_map].
+        rewrite (created_default_wf f (W f (or_introl eq_refl))), IH; [reflexivity | intros g Hg; apply W; right; exact Hg].
+      - clear - W. induction olds as [|f tl IH]; [reflexivity|]. cbn [flat_map].
+        rewrite (updated_default_wf f (W f (or_introl eq_refl))), IH; [reflexivity | intros g Hg; apply W; right; exact Hg]. }
+    rewrite Eall in Hall. apply in_flat_map in Hall. exact Hall.
 Qed.
